@@ -270,6 +270,33 @@ fn run(ctx: &mut Ctx) {
         }
         ctx.count_n("two- and three-word streams of boundary words", 7 * 256 * 7);
     });
+    // ---- words made from the integer literals of the library sources (and their variants with each entry-type top
+    // byte), between two timestamps, after a scaler block and alone: no particular word is special
+    let dict = super::source_dictionary("detector/src");
+    ctx.cases("dictionary-words", 16, |ctx, part, rng| {
+        let tops: Vec<u8> = vec![0xFF, 0xFE, 0x80, 0x80 | 58, 0x80 | 59, 0x00, 0x7F];
+        for (k, &v) in dict.iter().enumerate() {
+            if k as u64 % 16 != part || v > u32::MAX as u64 {
+                continue;
+            }
+            let mut words: Vec<[u8; 4]> = vec![(v as u32).to_le_bytes(), (v as u32).to_be_bytes()];
+            for &t in &tops {
+                words.push(((v as u32 & 0x00FF_FFFF) | (t as u32) << 24).to_le_bytes());
+            }
+            for w in words {
+                let a = ts_word(rng.below(59) as u8, rng.bool(), rng.next());
+                for st in [w.to_vec(), [a.to_vec(), w.to_vec(), a.to_vec()].concat(), [scaler_block(rng), w.to_vec(), a.to_vec()].concat(), [w.to_vec(), w.to_vec()].concat()] {
+                    let Some((got, consumed)) = lib_parse(ctx, &st) else { return };
+                    let (exp, ec) = ref_parse(&st);
+                    if got != exp || consumed != ec {
+                        ctx.violation("entries or consumed length differ from the reference parser", format!("stream with the word {:02x?}: consumed {} vs {}, entries {} vs {}", w, consumed, ec, got.len(), exp.len()), json!({"bytes": hex_short(&st)}));
+                        return;
+                    }
+                    ctx.count("streams with words made from source constants");
+                }
+            }
+        }
+    });
     // ---- scaler blocks whose 240 content bytes are themselves tags / markers / timestamps / all ones, alone, back to
     // back, first and last in the stream, followed by every kind of word
     ctx.cases("block-contents", 64, |ctx, i, rng| {
@@ -284,8 +311,10 @@ fn run(ctx: &mut Ctx) {
             _ => rng.bytes(240),
         };
         let block = [TAG.to_vec(), fill].concat();
+        let same_marker = marker_word(rng.next() as u32).to_vec();
         let word = |rng: &mut Rng, k: u64| -> Vec<u8> {
-            match k % 5 {
+            match k % 6 {
+                5 => same_marker.clone(), // the very same marker before and after the block(s)
                 0 => ts_word(rng.below(59) as u8, rng.bool(), rng.next()).to_vec(),
                 1 => marker_word(rng.next() as u32).to_vec(),
                 2 => TAG.to_vec(),
@@ -293,8 +322,8 @@ fn run(ctx: &mut Ctx) {
                 _ => Vec::new(),
             }
         };
-        for before in 0..5 {
-            for after in 0..5 {
+        for before in 0..6 {
+            for after in 0..6 {
                 for reps in 1..=3 {
                     let mut st = word(rng, before);
                     for _ in 0..reps {
